@@ -106,13 +106,13 @@ def algebra_terms(family, bases, sel, steps, small):
                 t = ["add", ["b", k1], ["b", k2]]
                 yield t
                 yield from unary(t)
-                for k3 in B:
+                for k3 in (small if len(steps) == 1 else B):      # quick tier: third operand from the reduced pool
                     yield ["add", t, ["b", k3]]
                     yield ["add", ["b", k3], t]
     elif family == "m":        # u(b1)+b2, b2+u(b1)
         for k1 in sel:
             for d1 in unary(["b", k1]):
-                for k2 in B:
+                for k2 in (small if len(steps) == 1 else B):      # quick tier: second operand from the reduced pool
                     yield ["add", d1, ["b", k2]]
                     yield ["add", ["b", k2], d1]
     elif family == "dd":       # d1 + d1' with both operands of depth 1, over the reduced base pool
@@ -167,7 +167,7 @@ def w_algebra_mixed(task):
 
 
 def algebra_tasks(rep):
-    steps = rep.pick((None, -1, 2), (None, 1, -1, 2, -2, 3))
+    steps = rep.pick((None, -1), (None, 1, -1, 2, -2, 3))
     maxw = 3
     nb = len(all_bases(maxw))
     small_w = rep.pick(1, 2)
@@ -176,8 +176,8 @@ def algebra_tasks(rep):
     for kind in KINDS:
         for k in range(nb):
             tasks.append(("A", (kind, "u", [k], maxw, steps, small)))
-            tasks.append(("A", (kind, "m", [k], maxw, (None, -1) if rep.quick else steps, small)))
-            tasks.append(("A", (kind, "a", [k], maxw, (None, -1) if rep.quick else steps, small)))
+            tasks.append(("A", (kind, "m", [k], maxw, (None,) if rep.quick else steps, small)))
+            tasks.append(("A", (kind, "a", [k], maxw, (None,) if rep.quick else steps, small)))
         for k in small:
             tasks.append(("A", (kind, "dd", [k], maxw, (None,) if rep.quick else (None, -1), small)))
     tasks.append(("Amix", (2,)))
@@ -189,7 +189,7 @@ def _bit(v, k):
     return (v >> k) & 1
 
 
-def sim_case(case, out):
+def _sim_case(case, out):
     """Buffer on a simulation-port expression: construction legality, then every (o, oe, pad) valuation"""
     from amaranth.hdl import Module, Cat
     from amaranth.lib import io
@@ -305,22 +305,41 @@ def sim_case(case, out):
         _viol(out, f"simbuf:{bufdir}:{ts}:{member}", f"{tag}: with inputs {val}: {text}", case)
 
 
+def _dedupe(gen):
+    """keep every depth<=1 case; of the depth-2 cases keep one representative per distinct reference value
+    (direction + per-bit (base, bit, inversion) list): leg A already ties every spelling to that value"""
+    seen = set()
+    for item in gen:
+        bases, term, deep = item[-3:]
+        key = (item[0] if len(item) > 3 else None, repr(bases), repr(ref(term, bases)))
+        if deep and key in seen:
+            continue
+        seen.add(key)
+        yield item[:-1]
+
+
+def _unary(t, bases, st, margin=1):
+    w = term_width(t, bases)
+    yield ["inv", t]
+    for key in slice_keys(w, st, margin):
+        yield apply_key(t, key)
+
+
 def sim_cases(rep_quick, steps, maxsum, depth2):
     """(bases, term) pairs for the simulation legs: distinct base objects on the two sides of `+`"""
-    def unary(t, bases, st):
-        w = term_width(t, bases)
-        yield ["inv", t]
-        for key in slice_keys(w, st):
-            yield apply_key(t, key)
+    return list(_dedupe(_sim_cases(rep_quick, steps, maxsum, depth2)))
+
+
+def _sim_cases(rep_quick, steps, maxsum, depth2):
     for b in all_bases(3):
         bases = [b]
         t0 = ["b", 0]
-        yield bases, t0
-        for d1 in unary(t0, bases, steps):
-            yield bases, d1
-            if depth2 and (b[0] <= depth2):
-                for d2 in unary(d1, bases, (None, -1)):
-                    yield bases, d2
+        yield bases, t0, False
+        for d1 in _unary(t0, bases, steps):
+            yield bases, d1, False
+            if b[0] <= depth2:
+                for d2 in _unary(d1, bases, (None, -1)):
+                    yield bases, d2, True
     allb = all_bases(3)
     for b1 in allb:
         for b2 in allb:
@@ -328,13 +347,13 @@ def sim_cases(rep_quick, steps, maxsum, depth2):
                 continue
             bases = [b1, b2]
             t = ["add", ["b", 0], ["b", 1]]
-            yield bases, t
-            if b1[0] + b2[0] <= 3:
-                for d2 in unary(t, bases, (None, -1) if rep_quick else steps):
-                    yield bases, d2
-                for d1 in unary(["b", 0], bases, (None, -1)):
-                    yield bases, ["add", d1, ["b", 1]]
-                    yield bases, ["add", ["b", 1], d1]
+            yield bases, t, False
+            if b1[0] + b2[0] <= (3 if rep_quick else 4):
+                for d2 in _unary(t, bases, (None, -1) if rep_quick else steps):
+                    yield bases, d2, True
+                for d1 in _unary(["b", 0], bases, (None, -1)):
+                    yield bases, ["add", d1, ["b", 1]], True
+                    yield bases, ["add", ["b", 1], d1], True
 
 
 def w_sim(cases):
@@ -536,9 +555,17 @@ def w_ff(cfg):
     from ..explore.bfs import explore
     warnings.simplefilter("ignore")
     out = _new_out()
-    spec = FFSpec(cfg)
-    res = explore(spec, procs=1, replay_n=cfg.get("replay_n", 10), cap_states=200_000)
     tag = ff_tag(cfg)
+    try:
+        spec = FFSpec(cfg)
+        res = explore(spec, procs=1, replay_n=cfg.get("replay_n", 10), cap_states=200_000)
+    except Exception as e:      # noqa: BLE001
+        import traceback
+        if not any("/amaranth/" in f.filename for f in traceback.extract_tb(e.__traceback__)):
+            raise
+        _viol(out, f"ffbuf:{tag}:exception:{type(e).__name__}", f"{tag}: unexpected {type(e).__name__}: {e}", dict(cfg, path=[]))
+        out["flags"] = []
+        return out
     out["cov"].update({"ff_states": res.states, "ff_transitions": res.transitions, "ff_traces_validated": res.traces_validated,
                        "ff_configurations": 1, "ff_capped": int(res.capped)})
     out["cov"]["evaluations"] += res.transitions
@@ -588,7 +615,7 @@ def ff_zero_width(out):
 NIR_DIR = {"i": "input", "o": "output", "io": "inout"}
 
 
-def net_case(case, out):
+def _net_case(case, out):
     """Buffer / FFBuffer on SingleEndedPort / DifferentialPort expressions: fine netlist + RTLIL text"""
     from amaranth.hdl import Module, ClockDomain, DriverConflict
     from amaranth.hdl._ir import Fragment, build_netlist
@@ -682,8 +709,9 @@ def net_case(case, out):
         try:
             text, _names = rtlil.convert_fragment(Fragment.get(m2, None), ports=ports2, name="top", emit_src=False)
         except Exception as e:      # noqa: BLE001
-            basew = ",".join(str(b[0]) for b in bases)
-            _viol(out, f"net:rtlil-convert:{type(e).__name__}:basewidths={basew}:{cls}:{bufdir}:{kind}:{ts}",
+            # every design whose buffer touches a zero-width IOPort fails alike: one signature per (class, direction)
+            where = "zero-width-IOPort" if min(b[0] for b in bases) == 0 else ts
+            _viol(out, f"net:rtlil-convert:{type(e).__name__}:{where}:{kind}:{cls}:{bufdir}",
                   f"{tag}: the fine netlist is built, but RTLIL conversion raises {type(e).__name__}: {e}", case)
             text = None
     bad = _net_semantics(case, bits, objs, buf, cd, ev, pidx, None, out)
@@ -791,37 +819,35 @@ def _net_semantics(case, bits, objs, buf, cd, ev, pidx, rv, out):
 
 
 def net_cases(rep_quick, steps, maxsum):
-    """(kind, bases, term): depth <= 1 everywhere (+ a depth-2 family), `+` also of a port with itself"""
-    def unary(t, bases, st):
-        w = term_width(t, bases)
-        yield ["inv", t]
-        for key in slice_keys(w, st):
-            yield apply_key(t, key)
+    """(kind, bases, term): depth <= 1 everywhere (+ depth-2 families), `+` also of a port with itself"""
+    return list(_dedupe(_net_cases(rep_quick, steps, maxsum)))
+
+
+def _net_cases(rep_quick, steps, maxsum):
     allb = all_bases(3)
     for kind in ("se", "diff"):
         for b in allb:
             bases = [b]
-            yield kind, bases, ["b", 0]
-            for d1 in unary(["b", 0], bases, steps):
-                yield kind, bases, d1
-            if b[0] in (1, 2):
-                # the same port twice: every concatenation of two depth<=1 slices of one port overlaps or not
-                keys = [k for k in slice_keys(b[0], (None,), margin=0)]
-                for k1 in keys:
-                    for k2 in keys:
-                        yield kind, bases, ["add", apply_key(["b", 0], k1), apply_key(["b", 0], k2)]
-            yield kind, bases, ["add", ["b", 0], ["b", 0]]
-            yield kind, bases, ["add", ["inv", ["b", 0]], ["b", 0]]
+            yield kind, bases, ["b", 0], False
+            for d1 in _unary(["b", 0], bases, steps):
+                yield kind, bases, d1, False
+            yield kind, bases, ["sl", ["b", 0], None, None, -1], False
+            # the same port twice: every concatenation of two depth<=1 slices of one port overlaps or not
+            for k1 in slice_keys(b[0], (None, -1), margin=0):
+                for k2 in slice_keys(b[0], (None, -1), margin=0):
+                    yield kind, bases, ["add", apply_key(["b", 0], k1), apply_key(["b", 0], k2)], True
+            yield kind, bases, ["add", ["b", 0], ["b", 0]], False
+            yield kind, bases, ["add", ["inv", ["b", 0]], ["b", 0]], False
         for b1 in allb:
             for b2 in allb:
                 if b1[0] + b2[0] > maxsum or {b1[2], b2[2]} == {"i", "o"}:
                     continue
                 bases = [b1, b2]
                 t = ["add", ["b", 0], ["b", 1]]
-                yield kind, bases, t
-                if b1[0] + b2[0] <= 3 and not rep_quick:
-                    for d2 in unary(t, bases, (None, -1)):
-                        yield kind, bases, d2
+                yield kind, bases, t, False
+                if b1[0] + b2[0] <= 3:
+                    for d2 in _unary(t, bases, (None, -1)):
+                        yield kind, bases, d2, True
 
 
 def w_net(cases):
@@ -843,7 +869,12 @@ def w_two_buffers(task):
     kind, w = task
     warnings.simplefilter("ignore")
     out = _new_out()
-    keys = slice_keys(w, (None, -1), margin=0)
+    keys, seen = [], set()
+    for k in slice_keys(w, (None, -1), margin=0):      # one spelling per distinct selection of bits
+        r = repr(ref(apply_key(["b", 0], k), [[w, 0, "io"]])[2])
+        if r not in seen:
+            seen.add(r)
+            keys.append(k)
     for mask in (0, (1 << w) - 1):
         for k1 in keys:
             for k2 in keys:
@@ -883,6 +914,29 @@ def w_two_buffers(task):
     return out
 
 
+def _guarded(fn, prefix):
+    """anything the legs do to a legal design must work: an exception escaping from amaranth is a finding,
+    not a harness error (the exception class is part of the signature)"""
+    def run_case(case, out):
+        try:
+            fn(case, out)
+        except Exception as e:      # noqa: BLE001
+            import traceback
+            tb = traceback.extract_tb(e.__traceback__)
+            inside = [f for f in tb if "/amaranth/" in f.filename]
+            if not inside:
+                raise               # a bug of the check itself stays a harness error
+            ts = term_str(case["term"], case["bases"])
+            _viol(out, f"{prefix}:exception:{type(e).__name__}:{case.get('cls', 'Buffer')}:{case['bufdir']}:{case.get('kind', 'sim')}:{ts}",
+                  f"{case.get('cls', 'Buffer')}({case['bufdir']}) on {case.get('kind', 'sim')} {ts}: unexpected {type(e).__name__}: {e} "
+                  f"(at {inside[-1].filename.split('/amaranth/')[-1]}:{inside[-1].lineno})", case)
+    return run_case
+
+
+sim_case = _guarded(_sim_case, "simbuf")
+net_case = _guarded(_net_case, "net")
+
+
 # =============================================================================================== driver
 WORKERS = {"A": w_algebra, "Amix": w_algebra_mixed, "B": w_sim, "C": w_ff, "D": w_net, "D2": w_two_buffers}
 
@@ -897,7 +951,7 @@ def run(rep):
     tasks = algebra_tasks(rep)
     # leg B
     sim_steps = rep.pick((None, -1, 2), (None, 1, -1, 2, -2, 3))
-    sc = list(sim_cases(rep.quick, sim_steps, rep.pick(4, 6), rep.pick(1, 3)))
+    sc = sim_cases(rep.quick, sim_steps, rep.pick(4, 6), rep.pick(2, 3))
     for ch in chunks(sc, rep.pick(60, 40)):
         tasks.append(("B", ch))
     # leg C
@@ -905,7 +959,7 @@ def run(rep):
     for c in ffc:
         tasks.append(("C", dict(c, replay_n=rep.pick(6, 20))))
     # leg D
-    nc = list(net_cases(rep.quick, rep.pick((None, -1), (None, -1, 2, -2)), rep.pick(4, 6)))
+    nc = net_cases(rep.quick, rep.pick((None,), (None, -1, 2, -2)), rep.pick(4, 6))
     ncs = []
     for x, (kind, bases, term) in enumerate(nc):
         # FFBuffer wraps Buffer: in the quick tier it is converted for every third expression
@@ -991,8 +1045,11 @@ def replay(payload):
     elif leg == "ffbuf":
         from ..explore.bfs import replay_path
         cfg = {k: v for k, v in payload.items() if k not in ("path", "replay_n")}
-        spec = FFSpec(cfg)
-        idx = [spec.actions.index(tuple(a)) for a in payload["path"]]
-        _key, errs = replay_path(spec, idx)
+        try:
+            spec = FFSpec(cfg)
+            idx = [spec.actions.index(tuple(a)) for a in payload["path"]]
+            _key, errs = replay_path(spec, idx)
+        except Exception as e:      # noqa: BLE001
+            return [f"unexpected {type(e).__name__}: {e}"]
         return [f"step {i}: {e}" for i, e in errs]
     return [v["what"] for v in out["violations"]]
